@@ -12,6 +12,9 @@ Type-and-effect argument over the resolved, monomorphic program (see DESIGN.md 5
   C  Clone / PartialEq of distribution types are derived or field-wise;
   D  Distribution impls define `sample` only.
 """
+CONFIGS_THOROUGH = ["serde", "release", "std_math"]
+ALL_WEIGHTS_THOROUGH = True
+
 import re
 
 from facts import span_str
@@ -20,7 +23,7 @@ ALLOWED_CRATES = {"rand_distr", "core", "alloc", "num_traits", "libm", "rand", "
 SERDE_CRATES = {"serde", "serde_core", "serde_with"}
 
 # std is not allow-listed as a crate: only its float-math inherent methods (thin wrappers of intrinsics)
-STD_OK = re.compile(r"^std::f(32|64)::<impl f(32|64)>::[a-z0-9_]+$")
+STD_OK = re.compile(r"^std::f(32|64)::<impl f(32|64)>::[a-z0-9_]+$|^std::sys::cmath::[a-z0-9_]+$")   # float math wrappers and the C libm bindings behind them
 
 DENY = [
     (re.compile(p), why) for p, why in [
@@ -29,7 +32,7 @@ DENY = [
         (r"\brand::rngs::", "rand's own generators (ThreadRng/SysRng/...) are entropy sources"),
         (r"\bgetrandom\b|\bSysRng\b|\bOsRng\b|\bThreadRng\b", "operating-system entropy"),
         (r"\bstd::time\b|\bstd::thread\b|\bstd::env\b|\bstd::fs\b|\bstd::io\b|\bstd::net\b|\bstd::process\b|"
-         r"\bstd::os\b|\bstd::sys\b", "environment access (clock / thread / env / fs / io)"),
+         r"\bstd::os\b|\bstd::sys::(?!cmath::)", "environment access (clock / thread / env / fs / io)"),
         (r"RandomState|\bstd::hash::random\b|\bDefaultHasher\b", "randomly seeded hashing"),
         (r"\bcore::sync::atomic\b|\bstd::sync\b|\bcore::intrinsics::atomic_", "shared mutable state (atomics / locks)"),
         (r"\bcore::cell::(Cell|RefCell|OnceCell|LazyCell|UnsafeCell)|\bstd::cell\b|OnceLock|LazyLock|\bonce_cell\b|"
@@ -52,7 +55,7 @@ LEAF_OK = [
         r"^alloc::raw_vec::", r"^alloc::string::", r"^alloc::fmt::", r"^alloc::vec::", r"^alloc::str::", r"^alloc::slice::",
         r"^core::ptr::", r"^core::alloc::", r"^core::f(32|64)::", r"^core::array::", r"^core::ops::", r"^core::iter::", r"^core::mem::",
         r"^core::cmp::", r"^core::convert::", r"^core::hash::", r"^core::any::", r"^core::error::", r"^core::ascii::",
-        r"^core::ub_checks::", r"^core::hint::(assert_unchecked|unreachable_unchecked|must_use|spin_loop)",
+        r"^core::ub_checks::", r"^std::sys::cmath::[a-z0-9_]+$",   # extern "C" libm functions (tan, tgamma, ...): pure r"^core::hint::(assert_unchecked|unreachable_unchecked|must_use|spin_loop)",
         r"^core::panic::", r"^core::ffi::", r"^core::time::",    # core::time is the Duration *type*, no clock
     ]
 ]
